@@ -396,3 +396,88 @@ func TestVerif_C08_random(t *testing.T) {
 		c08Check(rt, rec, e, c)
 	})
 }
+
+// Bulk sweeps: many registrations expire at the same sweep. One sweep must forget all of them
+// ("tracked state stays bounded by the registration rate"), whatever their number.
+type c08BulkCase struct {
+	N      int   `json:"n"`       // registrations
+	Used   int   `json:"used"`    // every Used-th registration carries a connection (0 = none)
+	AgeS   int64 `json:"age_s"`   // time that passes before the sweep
+	Sweeps int   `json:"sweeps"`  // number of sweeps after which the state is compared
+}
+
+func c08BulkRun(e *vEnv, c c08BulkCase) (key, msg string) {
+	e.resetRegistry()
+	r := e.rm.registeredDecoys
+	wantLeft := 0
+	for i := 0; i < c.N; i++ {
+		w := vWrapper(vSecret(10000+i), pb.TransportType_Min, 0, "192.0.2.10:443", true, false, 4, 957, pb.RegistrationSource_API, net.ParseIP("198.51.100.7").To4())
+		reg, err := e.rm.NewRegistrationC2SWrapper(w, false)
+		if err != nil {
+			return "harness", err.Error()
+		}
+		e.rm.AddRegistration(reg)
+		used := c.Used > 0 && i%c.Used == 0
+		if used {
+			e.rm.MarkActive(reg)
+		}
+		age := time.Duration(c.AgeS) * time.Second
+		if (used && age <= c08Active) || (!used && age <= c08Unused) {
+			wantLeft++
+		}
+	}
+	e.vShiftAll(time.Duration(c.AgeS) * time.Second)
+	for s := 0; s < c.Sweeps; s++ {
+		e.rm.RemoveOldRegistrations()
+	}
+	left := len(c08Tracked(r))
+	r.m.RLock()
+	nt := len(r.decoysTimeouts)
+	r.m.RUnlock()
+	if left != wantLeft {
+		return "bulk:kept-past-lifetime", fmt.Sprintf("%d registrations (every %d-th used) aged %v, %d sweep(s): %d still tracked, expected %d", c.N, c.Used, time.Duration(c.AgeS)*time.Second, c.Sweeps, left, wantLeft)
+	}
+	if nt != wantLeft {
+		return "timeout-records", fmt.Sprintf("%d time-out records for %d tracked registrations after a bulk sweep", nt, left)
+	}
+	return "", ""
+}
+
+func TestVerif_C08_bulk(t *testing.T) {
+	rec := vh.NewRec("C08", "bulk", "N registrations (N around powers of two up to 20000; every k-th marked used) aged past a lifetime and swept once: exactly those past their lifetime must be gone after ONE sweep; non-trivial = at least 1000 registrations expire in one sweep; distinct by case")
+	defer rec.Flush()
+	e := vNewEnv(t, nil, "")
+	run := func(c c08BulkCase) {
+		key, msg := c08BulkRun(e, c)
+		rec.Case(c.N >= 1000 && c.AgeS > 600, vh.Digest(c), c, fmt.Sprintf("n>=%d", (c.N/1000)*1000))
+		if key == "harness" {
+			t.Fatalf("harness problem: %s", msg)
+		}
+		if key != "" {
+			rec.Violation(t, key, c, "%s", msg)
+		}
+	}
+	if p := vh.ReplayFile(); p != "" {
+		var c c08BulkCase
+		if _, _, err := vh.LoadReplay(p, &c); err != nil {
+			t.Fatal(err)
+		}
+		run(c)
+		return
+	}
+	ns := []int{1, 255, 1000, 1024, 4095, 4096, 4097, 5000, 8193}
+	if vh.Thorough() {
+		ns = append(ns, 16385, 20000, 32769, 65537)
+	}
+	i := 0
+	for _, n := range ns {
+		for _, used := range []int{0, 3} {
+			for _, age := range []int64{11 * 60, 6*3600 + 60, 5 * 60} {
+				i++
+				if vh.Mine(i) {
+					run(c08BulkCase{N: n, Used: used, AgeS: age, Sweeps: 1})
+				}
+			}
+		}
+	}
+}
